@@ -1,6 +1,7 @@
 (* C12 - protoc-gen-pico emits correct codecs for every supported schema. *)
 From Coq Require Import List ZArith Bool.
-From Pico Require Import Base.Res Base.Mach Wire.Wire Schema.Types Schema.Scalar Schema.Gen Schema.GenProofs gen.Schemas.
+From Pico Require Import Base.Res Base.Mach Wire.Wire Schema.Types Schema.Scalar Schema.Gen Schema.GenProofs gen.Schemas
+  Schema.Interp Ref.Ref Schema.EncSpec Schema.EncProgProofs Schema.TEnc.
 Import ListNotations.
 Open Scope Z_scope.
 
@@ -23,7 +24,13 @@ Definition gen_ok (s : schema) : bool := match gen_all s with GOk _ => true | GE
 Theorem C12_checked_in_total : forallb gen_ok checked_in_schemas = true.
 Proof. vm_compute. reflexivity. Qed.
 
-(* PARTIAL: "for every wf schema the emitted codecs satisfy C01-C03, C06, C08" is decided per run:
+(* the generated Encode of EVERY accepted schema is the reference encoder (C01/C06 for all schemas) *)
+Theorem C12_encode_correct : forall fuel s progs idx fs un,
+  gen_all s = GOk progs -> wf_schema_enc s = true -> msg_ok fuel progs idx (Some (fs, un)) = true ->
+  pico_marshal fuel progs idx (fs, un) = Ok (ref_encode fuel s idx fs un).
+Proof. exact T_enc. Qed.
+
+(* PARTIAL (decode half): "for every wf schema the emitted codecs satisfy C01-C03, C06, C08" is decided per run:
    schemas drawn from a grammar over every generator branch go through the REAL plugin; its
    verdict (ok / error) and its emitted programs (parsed back by T-pico) are compared with the
    generator model; the emitted code is compiled and driven against protobuf-go like the
@@ -35,3 +42,4 @@ Proof. split; vm_compute; reflexivity. Qed.
 Print Assumptions C12_always_selection.
 Print Assumptions C12_boundary_optional_enum.
 Print Assumptions C12_checked_in_total.
+Print Assumptions C12_encode_correct.
